@@ -27,6 +27,7 @@ type runOpts struct {
 	noCache  bool
 	panics   bool
 	verbose  bool
+	noFilter bool
 }
 
 func main() {
@@ -48,6 +49,7 @@ func main() {
 	fs.BoolVar(&o.noCache, "no-cache", false, "ignore the result cache")
 	fs.BoolVar(&o.panics, "panics", false, "generate panic-freedom obligations")
 	fs.BoolVar(&o.verbose, "v", false, "verbose")
+	fs.BoolVar(&o.noFilter, "no-filter", false, "do not restrict the prelude to the axioms relevant to each query")
 	fs.Parse(os.Args[2:])
 	if o.verifDir == "" {
 		exe, _ := os.Executable()
@@ -121,6 +123,7 @@ func load(o runOpts) (*Engine, error) {
 		return nil, err
 	}
 	theEngine = e
+	e.noFilter = o.noFilter
 	e.prop = o.prop
 	kf, err := LoadKnownFindings(filepath.Join(o.verifDir, "known_findings.json"))
 	if err != nil {
@@ -162,6 +165,11 @@ func dischargeAll(e *Engine, units []*Unit, o runOpts, pool *SolverPool) []*Obli
 	sem := make(chan struct{}, o.jobs)
 	var wg sync.WaitGroup
 	for _, ob := range all {
+		if ob.Vacuity && ob.PC.S == "false" {
+			ob.Status = "unsat"
+			ob.Solver = "trivial"
+			continue
+		}
 		if ob.Goal.S == "true" || ob.PC.S == "false" {
 			ob.Status = "unsat"
 			ob.Solver = "trivial"
@@ -174,7 +182,15 @@ func dischargeAll(e *Engine, units []*Unit, o runOpts, pool *SolverPool) []*Obli
 			sem <- struct{}{}
 			defer func() { <-sem }()
 			q := e.Query(ob, prelude)
-			r := pool.Solve(q, o.timeout, o.tier == "thorough", false)
+			to := o.timeout
+			if ob.Vacuity {
+				// a contradiction, if any, is normally found at once; do not wait for the full timeout
+				to = 3 * time.Second
+				if o.tier == "thorough" {
+					to = 15 * time.Second
+				}
+			}
+			r := pool.Solve(q, to, o.tier == "thorough" && !ob.Vacuity, false)
 			ob.Status = r.Status
 			ob.Solver = r.Solver
 			ob.Time = r.Time
@@ -230,10 +246,19 @@ func cmdFn(o runOpts) int {
 	all := dischargeAll(e, units, o, pool)
 	nOK := 0
 	for _, ob := range all {
+		if ob.Vacuity {
+			nOK++
+			continue
+		}
 		if ob.Status == "unsat" {
 			nOK++
 			if o.verbose {
 				fmt.Printf("ok   %-70s %s %.2fs\n", ob.Name, ob.Solver, ob.Time)
+				if o.dump && !ob.Trivial {
+					q := e.Query(ob, e.FullPrelude())
+					p := filepath.Join(os.TempDir(), "govc_ok_"+mangle(ob.Name)+".smt2")
+					os.WriteFile(p, []byte(q), 0o644)
+				}
 			}
 			continue
 		}
@@ -247,6 +272,10 @@ func cmdFn(o runOpts) int {
 		if rc == 0 {
 			rc = 1
 		}
+	}
+	for _, m := range vacuityReport(all) {
+		fmt.Println(m)
+		rc = 2
 	}
 	var ws []string
 	for w := range e.warnings {
@@ -293,6 +322,36 @@ func blockIdx(bs []*ssa.BasicBlock) []int {
 	var out []int
 	for _, b := range bs {
 		out = append(out, b.Index)
+	}
+	return out
+}
+
+// vacuityReport: a function none of whose return sites is reachable under the accumulated assumptions has a
+// contradictory context (or contract); individual unreachable sites are dead error handling and are fine.
+func vacuityReport(all []*Obligation) []string {
+	type st struct{ total, dead int }
+	per := map[string]*st{}
+	var order []string
+	for _, ob := range all {
+		if !ob.Vacuity {
+			continue
+		}
+		s := per[ob.Func]
+		if s == nil {
+			s = &st{}
+			per[ob.Func] = s
+			order = append(order, ob.Func)
+		}
+		s.total++
+		if ob.Status == "unsat" {
+			s.dead++
+		}
+	}
+	var out []string
+	for _, f := range order {
+		if s := per[f]; s.total > 0 && s.dead == s.total {
+			out = append(out, fmt.Sprintf("MACHINERY-ERROR contradictory assumptions: no return site of %s is reachable (all %d proofs there would be vacuous)", f, s.total))
+		}
 	}
 	return out
 }
